@@ -645,7 +645,7 @@ fn run_case(case: Arc<Case>) -> Result<Vec<QueryOutcome>, String> {
                     let q = Query::new(case.names[*n].clone(), RecordType::from(*t));
                     recursor.resolve(q, Instant::now(), case.security_aware())
                 });
-                let res = tokio::time::timeout(Duration::from_secs(60), futures_util::future::join_all(futs)).await;
+                let res = tokio::time::timeout(Duration::from_secs(40), futures_util::future::join_all(futs)).await;
                 let events = log.lock().unwrap().clone();
                 let Ok(res) = res else {
                     return Err("hang".to_string());
@@ -661,7 +661,7 @@ fn run_case(case: Arc<Case>) -> Result<Vec<QueryOutcome>, String> {
             let (n, t) = &case.queries[k];
             let q = Query::new(case.names[*n].clone(), RecordType::from(*t));
             log.lock().unwrap().clear();
-            let res = tokio::time::timeout(Duration::from_secs(60), recursor.resolve(q, Instant::now(), case.security_aware())).await;
+            let res = tokio::time::timeout(Duration::from_secs(40), recursor.resolve(q, Instant::now(), case.security_aware())).await;
             let events = log.lock().unwrap().clone();
             let Ok(res) = res else {
                 return Err("hang".to_string());
@@ -674,8 +674,25 @@ fn run_case(case: Arc<Case>) -> Result<Vec<QueryOutcome>, String> {
     })
 }
 
-/// Runs the case on its own thread with a watchdog: a blocked (non-yielding) resolution is a hang.
-fn run_with_watchdog(case: Arc<Case>) -> Result<Vec<QueryOutcome>, String> {
+/// A resolution that has not returned after this long is a hang (the slowest legitimate case, a server
+/// truncating over TCP as well, keeps one lookup busy for the pool's 5 s deadline).
+const STUCK: Duration = Duration::from_secs(45);
+
+/// The hung case is written to `<out>/HANG.case` and to stdout as `HANG: <case>`, then this process exits 3;
+/// `bin/check` turns that into a VIOLATION whose replay is the hung case (AGENT_GUIDE, "Crashes …").
+fn report_hang(line: &str, out_dir: &std::path::Path) -> ! {
+    let _ = std::fs::create_dir_all(out_dir);
+    let _ = std::fs::write(out_dir.join("HANG.case"), format!("{line}\n"));
+    println!("HANG: {line}");
+    eprintln!("HANG: no result after {STUCK:?} (written to {}/HANG.case)", out_dir.display());
+    use std::io::Write as _;
+    let _ = std::io::stdout().flush();
+    std::process::exit(3);
+}
+
+/// Runs the case on its own thread (bounded stack) with a watchdog: a resolution that does not return — blocked,
+/// or busy without ever yielding — is reported with the case.
+fn run_with_watchdog(case: Arc<Case>, line: &str, out_dir: &std::path::Path) -> Result<Vec<QueryOutcome>, String> {
     let (tx, rx) = std::sync::mpsc::channel();
     std::thread::Builder::new()
         .stack_size(4 << 20)
@@ -687,9 +704,10 @@ fn run_with_watchdog(case: Arc<Case>) -> Result<Vec<QueryOutcome>, String> {
             });
         })
         .map_err(|e| e.to_string())?;
-    match rx.recv_timeout(Duration::from_secs(120)) {
+    match rx.recv_timeout(STUCK) {
+        Ok(Err(e)) if e == "hang" => report_hang(line, out_dir),
         Ok(r) => r,
-        Err(_) => Err("hang".into()),
+        Err(_) => report_hang(line, out_dir),
     }
 }
 
@@ -994,7 +1012,8 @@ fn exec_res(line: &str, t: &[&str], rec: &mut Recorder) {
     if ttl0 {
         rec.stat("ttl-zero-records(impl-vs-oracle only)");
     }
-    let res = run_with_watchdog(case.clone());
+    let out_dir = rec.out_dir.clone();
+    let res = run_with_watchdog(case.clone(), line, &out_dir);
     let outs = match res {
         Ok(o) => o,
         Err(e) => {
@@ -1281,6 +1300,12 @@ pub fn run(o: &Opts, rec: &mut Recorder) {
         let line = gen::acl_world(&mut r).line();
         exec(&line, rec);
     }
+    // alias graphs with fan-out (termination clause: the CNAME budget bounds the work, not the number of names)
+    let n = o.n(120, 3000);
+    for i in 0..n {
+        let c = gen::random_dag(&mut r, o.thorough() && i % 3 == 0);
+        exec(&c.line(), rec);
+    }
     // the DNSSEC-validating mode over the same (unsigned) internets: implementation-vs-oracle only — which servers
     // it talks to and what it returns is still subject to the filters and the bailiwick rule
     let n = o.n(60, 1500);
@@ -1536,7 +1561,8 @@ pub mod gen {
             let here = at(qn);
             let cn: Vec<&Rec> = here.iter().copied().filter(|r| matches!(r.data, RD::C(_))).collect();
             if !cn.is_empty() && t != 5 && t != 255 {
-                let mut ans: Vec<Rec> = vec![cn[0].clone()];
+                // every CNAME record at the owner (a hostile zone may hold several), then the in-zone chain of the first
+                let mut ans: Vec<Rec> = cn.iter().map(|r| (*r).clone()).collect();
                 let mut cur = cn[0].clone();
                 for _ in 0..4 {
                     let RD::C(tn) = cur.data else { break };
@@ -2169,6 +2195,18 @@ pub mod gen {
             }
             out.push(("rrsigs-along-cname-chain-stripped", c));
         }
+        // 18. alias graphs with fan-out (several CNAME records per owner): layered DAGs, diamonds, a DAG closed into a
+        //     loop — exponentially many paths, every name fetched once; cold, then the same lookup on the warm cache
+        {
+            out.push(("alias-dag-5x3-243-paths", dag_world(5 + 1, 3, 3, false, DagEnd::Address, 24, 24, 1, true)));
+            out.push(("alias-dag-12x3-deep-limits-255", dag_world(12, 3, 3, false, DagEnd::Address, 255, 255, 1, false)));
+            out.push(("alias-dag-16x3-default-limits", dag_world(16, 3, 3, false, DagEnd::Address, 24, 24, 1, false)));
+            out.push(("alias-dag-16x3-limits-255", dag_world(16, 3, 3, false, DagEnd::Address, 255, 255, 1, false)));
+            out.push(("alias-dag-diamonds", dag_world(8, 2, 2, true, DagEnd::Address, 64, 64, 1, true)));
+            out.push(("alias-dag-closed-into-loop", dag_world(4, 3, 3, false, DagEnd::LoopBack, 24, 24, 1, false)));
+            out.push(("alias-dag-small-2x2-within-budget", dag_world(3, 2, 2, false, DagEnd::Address, 24, 24, 28, true)));
+            out.push(("alias-dag-dead-ends", dag_world(5, 3, 3, false, DagEnd::Nothing, 24, 24, 1, false)));
+        }
         // 13b. negative answer carrying an in-bailiwick address the answer filter denies
         {
             let mut w = base(false);
@@ -2297,6 +2335,77 @@ pub mod gen {
         c
     }
 
+    /// what the last layer of an alias DAG looks like
+    #[derive(Clone, Copy, PartialEq)]
+    pub enum DagEnd {
+        Address,
+        Nothing,
+        /// aliases back to the first layer: a DAG mixed with a loop
+        LoopBack,
+    }
+
+    /// A hostile zone `dag.com.` whose names form a layered alias graph: every name of layer `i` carries CNAME
+    /// records to `fan` names of layer `i + 1` (several CNAME records per owner); `merge` makes every second layer a
+    /// single name (diamonds).  The number of paths is `fan^(layers-1)` while every name is fetched only once.
+    /// Queries: the first name cold, the same again (warm cache), optionally another first-layer name.
+    pub fn dag_world(layers: usize, width: usize, fan: usize, merge: bool, end: DagEnd, rl: u8, nl: u8, qtype: u16, extra_query: bool) -> Case {
+        let mut w = base(false);
+        let gd = w.std_group(1);
+        w.zone("dag.com.", gd, &["ns.dag.com."], true);
+        w.finish();
+        let width_of = |i: usize| if merge && i % 2 == 1 { 1 } else { width };
+        let mut ids: Vec<Vec<usize>> = vec![];
+        for i in 0..layers {
+            ids.push((0..width_of(i)).map(|j| w.intern(&format!("l{i}n{j}.dag.com."))).collect());
+        }
+        let apex = w.intern("dag.com.");
+        let roots = w.group_ips[0].clone();
+        let mut qs = vec![(ids[0][0], qtype), (ids[0][0], qtype)];
+        if extra_query && ids[0].len() > 1 {
+            qs.push((ids[0][1], qtype));
+        }
+        let mut c = w.case(roots, qs, rl, nl);
+        let soa = Rec { name: apex, ttl: 3600, data: RD::S(3600) };
+        let idx_of = |c: &Case, n: usize| c.names.iter().position(|x| *x == w.names[n]).unwrap();
+        for i in 0..layers {
+            for (j, n) in ids[i].iter().enumerate() {
+                let ni = idx_of(&c, *n);
+                let ans: Vec<Rec> = if i + 1 < layers {
+                    let next = &ids[i + 1];
+                    (0..fan.min(next.len()).max(1)).map(|k| Rec { name: ni, ttl: 3600, data: RD::C(idx_of(&c, next[(j + k) % next.len()])) }).collect()
+                } else {
+                    match end {
+                        DagEnd::Address => vec![Rec { name: ni, ttl: 3600, data: if qtype == 28 { RD::Q((0x2a00u128 << 112) | 9) } else { RD::A(u32::from(Ipv4Addr::new(44, 1, 1, 9))) } }],
+                        DagEnd::Nothing => vec![],
+                        DagEnd::LoopBack => ids[0].iter().take(fan).map(|t| Rec { name: ni, ttl: 3600, data: RD::C(idx_of(&c, *t)) }).collect(),
+                    }
+                };
+                let keys: Vec<(usize, usize, u16)> = c.table.keys().filter(|(g, n2, _)| *g == gd && *n2 == ni).cloned().collect();
+                for k in keys {
+                    let resp = if k.2 == qtype && !ans.is_empty() {
+                        Resp { rcode: 0, aa: true, tc: 0, ans: ans.clone(), auth: vec![], add: vec![] }
+                    } else {
+                        Resp { rcode: 0, aa: true, tc: 0, ans: vec![], auth: vec![soa.clone()], add: vec![] }
+                    };
+                    c.table.insert(k, resp);
+                }
+            }
+        }
+        c
+    }
+
+    pub fn random_dag(r: &mut Rng, big: bool) -> Case {
+        let layers = if big { r.range(6, 16) } else { r.range(2, 7) } as usize;
+        let width = r.range(2, 3) as usize;
+        let fan = r.range(2, if width == 3 { 4 } else { 2 }).min(4) as usize;
+        let merge = r.chance(1, 4);
+        let end = *r.pick(&[DagEnd::Address, DagEnd::Address, DagEnd::Nothing, DagEnd::LoopBack]);
+        let rl = *r.pick(&[24u8, 24, 24, 255, 8, 64]);
+        let nl = *r.pick(&[24u8, 24, 255, 64]);
+        let qtype = *r.pick(&[1u16, 1, 28]);
+        dag_world(layers, width, fan.min(width.max(2)), merge, end, rl, nl, qtype, r.chance(1, 2))
+    }
+
     const TLDS: [&str; 3] = ["com.", "net.", "org."];
     const SLDS: [&str; 5] = ["example", "victim", "attacker", "hoster", "x"];
 
@@ -2379,6 +2488,16 @@ pub mod gen {
                     let t = r.pick(&hostnames).clone();
                     let rec = w.cname(hn, &t);
                     w.add_auto(rec);
+                    // sometimes 2..4 CNAME records at the same owner (alias graphs with fan-out)
+                    if r.chance(1, 3) {
+                        for _ in 0..r.range(1, 3) {
+                            let t = r.pick(&hostnames).clone();
+                            let rec = w.cname(hn, &t);
+                            if !w.zones.iter().any(|z| z.records.contains(&rec)) {
+                                w.add_auto(rec);
+                            }
+                        }
+                    }
                 }
                 2 => {
                     let rec = w.rec(hn, RD::T(k as u32));
